@@ -64,6 +64,12 @@ def _req(rng, d):
     cand = [x for x in interior if sum(1 for y in kv if y == x) < p]
     if cand and rng.random() < .4:
         u = rng.choice(cand); G.count('rem_param', 'on-knot')
+    elif interior and rng.random() < .2:
+        # a DISTINCT knot next to an existing one (closer than 1e-3, further than the library's 1e-7): the multiplicity search must
+        # not merge them
+        x = rng.choice(interior)
+        u = x + rng.choice([-1, 1]) * rng.choice([F(1, 2500), F(1, 300000)])
+        G.count('rem_param', 'next-to-a-knot')
     else:
         u = kv[p] + (kv[n] - kv[p]) * F(rng.randint(1, 99), 100); G.count('rem_param', 'in-span')
     s = sum(1 for x in kv if x == u)
